@@ -75,7 +75,7 @@ def registry_cases(chk, n_random):
             cases.append((roots, {}, pol, "edge"))
     for _ in range(n_random):
         samples = DR.random_merge_input(chk.rng)
-        envspec = chk.rng.choice(DI.RANDOM_ENVS[:3] + [{}])
+        envspec = chk.rng.choice(DI.RANDOM_ENVS[:3] + [{}, {"dkf": ["p", "items"]}, {"dkr": ["[xyz]", "k"]}, {"dkf": ["q"], "dkr": ["[a-z]"]}])
         cases.append(([("Root", samples)], envspec, chk.rng.choice(DR.POLICIES), "rnd"))
     return cases
 
